@@ -11,8 +11,9 @@ set -u
 SD="$1"; NAME="$2"; shift 2
 DIR="$(cd "$(dirname "${BASH_SOURCE[0]}")/.." && pwd)"
 WT="/tmp/verify-$NAME"
+SLOT="${EVAL_SLOT:-}"   # parallel evaluations use separate build directories
 export CARGO_NET_OFFLINE=true
-export CARGO_TARGET_DIR=/tmp/verify-target
+export CARGO_TARGET_DIR=/tmp/verify-target$SLOT
 git -C /repo worktree remove --force "$WT" >/dev/null 2>&1
 git -C /repo worktree add --detach "$WT" HEAD >/dev/null 2>&1 || { echo "cannot create worktree"; exit 2; }
 cd "$WT" || exit 2
@@ -35,7 +36,7 @@ echo "applies=$applies baseline_passes=$base demo_fails_with=$demo_fails demo_pa
 results="{}"
 if $applies && $base; then
     for c in "$@"; do
-        out=$(VERIF_REPO="$WT" VERIF_TARGET_DIR="$DIR/target/alt" "$DIR/check" "$c" quick 2>&1)
+        out=$(VERIF_REPO="$WT" VERIF_TARGET_DIR="$DIR/target/alt$SLOT" "$DIR/check" "$c" quick 2>&1)
         rc=$?
         first=$(echo "$out" | grep -m1 -E '^vcheck: .*\[[a-z0-9:._-]+\]' | cut -c1-400)
         echo "  $c -> exit $rc  $first"
